@@ -461,33 +461,44 @@ theorem old_predicate_not_rank_order : ¬ RankOrderB oldShouldFlip := by
 
 /-! ### Decimal -/
 
-/-- A run of decimal digits denotes its value with the narrowest of INTEGER, LONG, DOUBLE. -/
+/-- Everything `parse::<u32>` accepts is far inside the DOUBLE range. -/
+theorem u32_lt_dblOverflow : 4294967295 < dblOverflow := by decide +kernel
+
+/-- A run of decimal digits denotes its value with the narrowest of INTEGER, LONG, DOUBLE; a number that
+no DOUBLE holds (`dblOverflow = 2^1024 - 2^970` or more) is the parse error Overflow. -/
 theorem dec_narrowest (n : Nat) : decLit n = narrowest (n : Int) := by
+  have hu := u32_lt_dblOverflow
   unfold decLit processDec narrowest
   simp only [Bool.false_eq_true, if_false]
   repeat' split
   all_goals first | rfl | omega
 
 /-- The same, read off the type: INTEGER exactly up to 32767, LONG exactly from 32768 to 2147483647,
-DOUBLE above; the value is always the written one. -/
+DOUBLE above up to the end of the DOUBLE range, Overflow beyond; the value is always the written one. -/
 theorem dec_type_by_magnitude (n : Nat) :
     (n ≤ 32767 → decLit n = .int n) ∧ (32767 < n → n ≤ 2147483647 → decLit n = .long n)
-      ∧ (2147483647 < n → decLit n = .double n) := by
+      ∧ (2147483647 < n → n < dblOverflow → decLit n = .double n)
+      ∧ (dblOverflow ≤ n → decLit n = .overflow) := by
+  have hu := u32_lt_dblOverflow
   rw [dec_narrowest]
   unfold narrowest
-  refine ⟨fun h => ?_, fun h1 h2 => ?_, fun h => ?_⟩
+  refine ⟨fun h => ?_, fun h1 h2 => ?_, fun h1 h2 => ?_, fun h => ?_⟩
   · rw [if_pos (by omega)]
   · rw [if_neg (by omega), if_pos (by omega)]
-  · rw [if_neg (by omega), if_neg (by omega)]
+  · rw [if_neg (by omega), if_neg (by omega), if_pos (by omega)]
+  · rw [if_neg (by omega), if_neg (by omega), if_neg (by omega)]
 
 /-- `narrowest v` really is the narrowest type that holds `v`: it is INTEGER iff `v` is in the INTEGER
-range, LONG iff it is in the LONG but not in the INTEGER range, DOUBLE iff it is in neither. -/
+range, LONG iff it is in the LONG but not in the INTEGER range, DOUBLE iff it is in neither and a DOUBLE
+holds it, and no literal at all (Overflow) iff no DOUBLE holds it. -/
 theorem narrowest_is_least (v : Int) :
     (narrowest v = .int v ↔ (-32768 ≤ v ∧ v ≤ 32767))
       ∧ (narrowest v = .long v ↔ (¬ (-32768 ≤ v ∧ v ≤ 32767) ∧ -2147483648 ≤ v ∧ v ≤ 2147483647))
-      ∧ (narrowest v = .double v ↔ ¬ (-2147483648 ≤ v ∧ v ≤ 2147483647)) := by
+      ∧ (narrowest v = .double v ↔ (¬ (-2147483648 ≤ v ∧ v ≤ 2147483647) ∧ v.natAbs < dblOverflow))
+      ∧ (narrowest v = .overflow ↔ dblOverflow ≤ v.natAbs) := by
+  have hu := u32_lt_dblOverflow
   unfold narrowest
-  refine ⟨?_, ?_, ?_⟩ <;> (repeat' split) <;> simp <;> omega
+  refine ⟨?_, ?_, ?_, ?_⟩ <;> (repeat' split) <;> simp <;> omega
 
 /-- A decimal literal written as a digit string (leading zeros allowed) is typed by its value. -/
 theorem dec_digits_narrowest (ds : List Nat) :
@@ -497,6 +508,7 @@ theorem dec_digits_narrowest (ds : List Nat) :
 literal of the negated value with the narrowest type that holds it (`-32768` INTEGER, `-32769` LONG,
 `-2147483648` LONG, `-2147483649` DOUBLE): no excluded value (F3c repaired). -/
 theorem neg_literal_fold (n : Nat) : negDecLit n = narrowest (-(n : Int)) := by
+  have hu := u32_lt_dblOverflow
   unfold negDecLit processDec narrowest
   simp only [if_true]
   repeat' split
@@ -506,7 +518,15 @@ example : negDecLit 32768 = .int (-32768) ∧ negDecLit 32769 = .long (-32769)
     ∧ negDecLit 2147483648 = .long (-2147483648) ∧ negDecLit 2147483649 = .double (-2147483649)
     ∧ negDecLit 4294967296 = .double (-4294967296) ∧ decLit 4294967296 = .double 4294967296
     ∧ decLit (digitsVal 10 [0, 0, 3, 2, 7, 6, 8]) = .long 32768 := by
-  decide
+  decide +kernel
+
+/-- The end of the DOUBLE range: `2^1024 - 2^970 - 1` (309 digits, it rounds to the largest DOUBLE) is still a
+DOUBLE literal, `2^1024 - 2^970` and `1` followed by 400 zeros are the parse error Overflow, with and
+without a minus sign in front. -/
+example : decLit (dblOverflow - 1) = .double (2 ^ 1024 - 2 ^ 970 - 1) ∧ decLit dblOverflow = .overflow
+    ∧ negDecLit (dblOverflow - 1) = .double (-(2 ^ 1024 - 2 ^ 970 - 1)) ∧ negDecLit dblOverflow = .overflow
+    ∧ decLit (10 ^ 400) = .overflow ∧ negDecLit (10 ^ 400) = .overflow := by
+  decide +kernel
 
 /-- `Expression::unary_minus` applied to an already typed literal (the path of `-&H8000`, `--5`; a
 minus sign directly followed by decimal digits does not take it): the negated value with the narrowest
@@ -515,6 +535,7 @@ type, for every value but 2147483648.  That value can only be a DOUBLE literal (
 is what `-2147483648#` must be. -/
 theorem negLit_narrowest_partial (v : Int) (h : v ≠ 2147483648) :
     negLit (narrowest v) = narrowest (-v) := by
+  have hu := u32_lt_dblOverflow
   unfold narrowest
   repeat' split
   all_goals (simp only [negLit]; repeat' split)
